@@ -525,7 +525,7 @@ def panic_axis_batches(seed, tier):
     batches = []
     info = {"ABS_Z": {"min": 0, "max": 255}, "ABS_RY": {"min": -128, "max": 127}, "ABS_HAT0X": {"min": -1, "max": 1}}
     keys = {"BTN_A": {"n": 60, "o": 0}, "BTN_B": {"n": 64, "o": 1}}
-    acts = {"KEY_F9": "cc_learning", "KEY_F11": "mapping_down", "KEY_F12": "mapping_up", "KEY_F2": "channel_up"}
+    acts = {"KEY_F9": "cc_learning", "KEY_F11": "mapping_down", "KEY_F12": "mapping_up", "KEY_F2": "channel_up", "KEY_ESC": "panic"}
     for flip in (False, True):
         for other in ("cc", "key", "absent"):
             a1 = {"ABS_Z": axis("action", act="panic", bidi=False, flip=flip, dzn=0, dzd=1),
@@ -535,7 +535,8 @@ def panic_axis_batches(seed, tier):
                 a2 = {"ABS_Z": axis("cc", cc=9, dzn=0, dzd=1), "ABS_RY": axis("cc", cc=10, ccNeg=11, bidi=True),
                       "ABS_HAT0X": axis("action", act="panic", actNeg="channel_down", bidi=True)}
             elif other == "key":
-                a2 = {"ABS_Z": axis("key", note=40, bidi=False, flip=flip), "ABS_RY": axis("key", note=41, noteNeg=42, bidi=True),
+                # emulated keys on other channels than the current one: a panic does not silence them, letting go must
+                a2 = {"ABS_Z": axis("key", note=40, off=1, bidi=False, flip=flip), "ABS_RY": axis("key", note=41, noteNeg=42, off=3, offNeg=15, bidi=True),
                       "ABS_HAT0X": axis("action", act="channel_up", actNeg="panic", bidi=True)}
             else:
                 a2 = {"ABS_HAT0X": axis("action", act="panic", actNeg="panic", bidi=True)}
@@ -563,8 +564,15 @@ def panic_axis_batches(seed, tier):
                         w.append({"ev": "release" if learning else "press", "k": "KEY_F9"})
                         learning = not learning
                     else:
-                        k = rng.choice(["KEY_F11", "KEY_F12", "KEY_F12", "KEY_F2"])
+                        k = rng.choice(["KEY_F11", "KEY_F12", "KEY_F12", "KEY_F2", "KEY_ESC"])
                         w += [{"ev": "press", "k": k}, {"ev": "release", "k": k}]
+                for k in sorted(held):      # everything let go at the end: silence
+                    w.append({"ev": "release", "k": k})
+                if learning:
+                    w.append({"ev": "release", "k": "KEY_F9"})
+                for a in sorted(info):
+                    mn, mx = info[a]["min"], info[a]["max"]
+                    w.append({"ev": "axis", "a": a, "raw": (mn + mx) // 2 + 1 if mn == 0 else 0})
                 walks.append(w)
             batches.append({"cfg": cfg, "cfgmode": "literal", "sub": "", "walks": walks})
     return batches
